@@ -483,7 +483,10 @@ class TransactionManager(Elaboratable):
         self.transactions = DependencyContext.get().get_dependency(TransactionsKey())
         self.methods = DependencyContext.get().get_dependency(DefinedMethodsKey())
 
-        for elem in chain(self.transactions, self.methods):
+        # relations declared on a method defined with `provide` belong to the body it forwards to
+        provided_methods = DependencyContext.get().get_dependency(ProvidedMethodsKey())
+
+        for elem in chain(self.transactions, self.methods, list(provided_methods)):
             for relation in elem.relations:
                 elem._body.relations.append(RelationBase(**{**dataclass_asdict(relation), "end": relation.end._body}))
             for elem2 in elem.simultaneous_list:
